@@ -116,7 +116,9 @@ func (s *State) RemoveAccount(address crypto.Address) error {
 	s.store.Delete(types.CodeStoreKey(address))
 	s.store.Delete(types.AbiStoreKey(address))
 	s.store.Delete(types.AddressMetaStoreKey(address))
-	return nil
+	// the VM has already credited the beneficiary with the destroyed account's balance (in its cache, written back
+	// by UpdateAccount): the destroyed account must not keep it as well
+	return s.bk.SetBalance(s.ctx, address.Bytes(), sdk.NewInt64Coin(s.sk.BondDenom(s.ctx), 0))
 }
 
 // GetStorage retrieves a 32-byte value stored at the key for the account at the
